@@ -85,6 +85,10 @@ def correspond(ctx, mod):
         if b == 'out-of-model':
             res.corr_by_outcome['out-of-model'] = res.corr_by_outcome.get('out-of-model', 0) + 1
             continue
+        if a == 'skipped' or b == 'skipped':
+            # the stream was cut after too many crashes / hangs of a driver: not compared
+            res.corr_by_outcome['skipped'] = res.corr_by_outcome.get('skipped', 0) + 1
+            continue
         pa, pb = project(op, a), project(op, b)
         if pa != pb:
             if len(res.corr_disagreements) < 50:
